@@ -28,6 +28,29 @@ theorem C05_detect (src : Bytes) (order : List (Compression × Bytes)) (h : orde
     fun a ha b hb => huniq a (h.mem_iff.1 ha) b (h.mem_iff.1 hb)
   rw [find?_perm_unique (fun cm => hasPrefix src cm.2) h huniq']
 
+/-- **A stream that begins with a tar header is read as a plain tar, whatever its first bytes** (since `fix:`
+    381ce6b): the first bytes of a plain tar are its first entry's *name*. -/
+theorem C05_tar_header_wins (block : Bytes) (h : isTarHeader block = true) : decompressKind block = .uncompressed := by
+  unfold decompressKind
+  simp only [h, and_true]
+  split
+  · rfl
+  · rename_i hc
+    simpa using hc
+
+/-- a tar header block for an entry named `BZh` (all other fields zero, checksum 516 = 0o1004) -/
+def exBZhBlock : Bytes :=
+  [0x42, 0x5A, 0x68] ++ List.replicate 145 0 ++ [0x30, 0x30, 0x31, 0x30, 0x30, 0x34, 0, 0x20] ++ List.replicate 356 0
+
+/-- **Why the magic numbers alone were wrong**: this block is a valid tar header, and the magic-number test alone takes
+    the stream for bzip2 (the pre-fix `Decompress`; a plain tar named `BZhello.txt` was refused as corrupt). -/
+theorem C05_counter_magic_name :
+    exBZhBlock.length = 512 ∧ isTarHeader exBZhBlock = true ∧ detectCompression (exBZhBlock.take 10) = .bzip2 ∧
+    decompressKind exBZhBlock = .uncompressed := by decide +kernel
+
+/-- compressed streams keep their detection: a gzip member's first block is no tar header (test) -/
+example : decompressKind ([0x1f, 0x8b, 0x08, 0, 0, 0, 0, 0, 0, 0xff] ++ List.replicate 502 0x55) = .gzip := by decide +kernel
+
 /-- a gzip stream is detected as gzip, plain tar as uncompressed (tests) -/
 example : detectCompression [0x1f, 0x8b, 0x08, 0, 0, 0, 0, 0, 0, 0xff] = .gzip := by decide
 example : detectCompression [0x2e, 0x2f, 0, 0, 0, 0, 0, 0, 0, 0] = .uncompressed := by decide
